@@ -258,7 +258,7 @@ def main():
         "exhaustive": not viol_ and not inc,
     }
     assumptions = [f"CrossHair bound: path length <= {maxlen}, element kinds {{Node, Link, other}}; 'Confirmed over all paths' required, anything else is inconclusive",
-                   "universe of the fork harness: 3 nodes (named distinctly, and with two of them sharing a name), 2 links, 2 origins, 2 destinations, 64 pre-states; every variable control-determining (solver-driven exhaustive exploration)"]
+                   "universe of the fork harness: 3 nodes (named distinctly on a plain Network; and with two of them sharing a name on an instance of a user subclass of Network), 2 links, 2 origins, 2 destinations, 64 pre-states; every variable control-determining (solver-driven exhaustive exploration)"]
     harness.finish(args, "model_checking", cov, assumptions, viol_, inc, t0)
 
 
